@@ -12,7 +12,7 @@ def main():
     sigcheck.check_stability(chk, a.tier)
     sigcheck.check_history(chk, a.tier)
     chk.encoded("ffcx.naming.compute_signature (pre-image captured by a hashlib recorder)", "jit._compute_option_signature / _compilation_signature", "naming.form_name / integral_name / expression_name")
-    chk.bounds = {"points": "quick: binades 2^-6..2^2; thorough: 2^-40..2^10 (coordinates of reference cells lie in [0,1])", "options": "2-4 values per option", "stability": "3 (quick) / 24 (thorough) subprocesses", "history": "pool of 9 requests (6 expressions, 3 forms); every history of length <= 2 (quick), plus a fifth of the length-3 histories (thorough); id() of ffcx modules replaced by an environment that reuses identities of dead objects"}
+    chk.bounds = {"points": "quick: binades 2^-6..2^2; thorough: 2^-40..2^10 (coordinates of reference cells lie in [0,1])", "options": "2-4 values per option", "stability": "9 (quick) / 88 (thorough) subprocesses: hash seeds x UFL counter offsets (incl. 8,9,10,98,99,100,998,999) x creation orders; compile flags with 4 entries", "history": "pool of 9 requests (6 expressions, 3 forms); every history of length <= 2 (quick), plus a fifth of the length-3 histories (thorough); id() of ffcx modules replaced by an environment that reuses identities of dead objects"}
     chk.assumptions = ["sha1 is injective on the pre-images compared", "SOLVER-DECIDED: only the evaluation-point part (QF_LIA over all doubles of a segment)",
                        "ENUMERATED, not solver-decided: option/flag sensitivity, identifier validity, cross-process stability (sampling of hash seeds, counter offsets, creation orders), in-process history independence (bounded histories, adversarial id() environment)"]
     chk.finish("QF_LIA collision query on the decimal rendering of evaluation points found in the real pre-image; bounded enumeration for the remaining parts (stated)")
